@@ -191,9 +191,13 @@ def _c15_fs(lines, seed, tier):
     k = len(lines) // (4 if tier == "quick" else 2)
     for l in rnd.sample(lines, min(len(lines), max(k, 200))):
         c = json.loads(l)
+        key, tags = c["key"], list(c.get("tags") or [])
         c["fs"] = True
-        c["key"] = c["key"] + "+fs"
-        c["tags"] = list(c.get("tags") or []) + ["fsloader"]
+        c["key"] = key + "+fs"
+        c["tags"] = tags + ["fsloader"]
+        out.append(json.dumps(c) + "\n")
+        # ... and as a CompiledLoader (files with serialised compiled templates)
+        c = dict(c, fs=False, cl=True, key=key + "+cl", tags=tags + ["compiledloader"])
         out.append(json.dumps(c) + "\n")
     # ... and one in which the engine's only loader is a ChainLoader over the two: "the first loader that has the name wins"
     # is the same sentence; a chain reports no time stamps, so only histories in which auto-reload stays off
@@ -203,8 +207,12 @@ def _c15_fs(lines, seed, tier):
         if c.get("auto") or any(op.get("op") in ("setautoreload", "setauto", "setdevmode") for op in c["ops"]):
             continue
         c["chain"] = True
-        c["key"] = c["key"] + "+chain"
+        key = c["key"]
+        c["key"] = key + "+chain"
         c["tags"] = list(c.get("tags") or []) + ["chainloader"]
+        out.append(json.dumps(c) + "\n")
+        # ... the first loader of the chain as a FileSystemLoader (files written and removed)
+        c = dict(c, chain=False, fschain=True, key=key + "+fschain", tags=list(c["tags"]) + ["fschain"])
         out.append(json.dumps(c) + "\n")
     return out
 
@@ -219,6 +227,9 @@ PROPS["C15"] = dict(
             # every history of 5 (6) operations
             dict(name="twopaths", module="CacheLoaders", cmd="cachehist", cfg={"quick": "MC_C15_fs2.cfg", "thorough": "MC_C15_fs2_thorough.cfg"},
                  timeout={"quick": 300, "thorough": 900}),
+            # a source that does not parse in the timestamp-aware loader (auto-reload on): every history of 6 operations on one name
+            dict(name="broken", module="CacheLoaders", cmd="cachehist", cfg={"quick": "MC_C15_broken.cfg", "thorough": "MC_C15_broken.cfg"},
+                 timeout={"quick": 300, "thorough": 900}, transform=_c15_fs),
             dict(name="random", cfg={}, c2s=dict(gen="cachehist", cmd="cachehist", n={"quick": 300, "thorough": 4000}, len=80,
                                                  trace=dict(module="Trace_C15", cfg="Trace_C15.cfg")))],
     nontrivial=lambda r: True,
